@@ -225,3 +225,54 @@ def unit_drift_rate(vc):
 # it is discharged again here.
 from . import c15 as _C15
 contract('C20', 'array_clock_advances_by_the_samples_delivered', functions=[_C15.MA + '.get_samples'])(_C15.first_request)
+
+
+@contract('C20', 'record_on_input_data_reports_the_clamped_length', functions=[BK + '.record', BK + '._header_populate_configuration', BK + '.get_num_blocks'])
+def record_clamped(vc):
+    """A backend built on existing RAW data never records more blocks than the input holds, and everything it *reports* - num_blocks, observation
+    length, total sample count, SCANLEN, PKTSTOP - is computed from that clamped count (checked where the file loop is entered; the loop itself is
+    C04's contract)."""
+    from . import c04 as C4
+    npol = 1 + vc.choose(2, 'num_pols')
+    mode = ('num_blocks', 'obs_length', 'default')[vc.choose(3, 'length_mode')]
+    be, P = C4.build_backend(vc, npol, 8)
+    F = be.fields
+    Nin, N = Int('input_num_blocks'), Int('requested_blocks')
+    vc.assume(And(Nin >= 1, N >= 1))
+    F['input_num_blocks'] = Nin
+    F['input_file_stem'] = 'in'
+    F['input_header_dict'] = {'TELESCOP': 'GBT', 'OBSERVER': 'someone', 'SRC_NAME': 'VOYAGER'}
+    F['header_size'] = Int('in_header_size')
+    spb, tpb = F['samples_per_block'], F['time_per_block']
+
+    class AtLoopEntry:
+        def havoc(self, interp, env, k, phase):
+            raise I.PathEnd()
+
+        def inv(self, interp, env, k):
+            hd = env.get('header_dict')
+            n = F['num_blocks']
+            want = smin(N, Nin) if mode != 'default' else Nin
+            vc.cover('file-loop-entered')
+            vc.ensure(f'C20/record-on-input/{mode}/post/num_blocks-clamped-to-the-input', eq(n, want) if mode != 'obs_length' else And(n <= Nin, n >= 0))
+            vc.ensure(f'C20/record-on-input/{mode}/post/obs_length-and-total-samples-from-the-clamped-count',
+                      And(eq(F['obs_length'], n * tpb), eq(F['total_obs_num_samples'], n * spb * P['nb'])))
+            vc.ensure(f'C20/record-on-input/{mode}/post/SCANLEN-and-PKTSTOP-from-the-clamped-count', And(eq(hd['SCANLEN'], n * tpb), eq(hd['PKTSTOP'], hd['PKTSTART'] + n * spb)))
+            raise I.PathEnd()
+    vc.interp.loop_specs[(BK + '.record', 2)] = AtLoopEntry()
+    vc.interp.open_hook = lambda path, m='r': L.FileW(path, m)
+    kw = dict(verbose=False, load_template=False)
+    if mode == 'num_blocks':
+        kw.update(num_blocks=N, length_mode='num_blocks')
+    elif mode == 'obs_length':
+        kw.update(obs_length=Real('requested_length'), length_mode='obs_length')
+        vc.assume(Real('requested_length') > 0)
+    out = vc.run(lambda: vc.interp.call_key(BK + '.record', be, 'out', **kw))
+    vc.ensure(f'C20/record-on-input/{mode}/exc/none-before-the-file-loop', out.ok)
+
+
+# "stand-alone helpers (... frame parameters from backend parameters) agree with the backend for the same inputs": Frame.from_backend_params
+# must hand *all* of its backend parameters to params_from_backend - C05's contract of that constructor (df = sample_rate/num_branches/fftlength,
+# dt = int_factor/df, tchans = floor(obs_length/dt)), discharged again here
+from . import c05 as _C5
+contract('C20', 'frame_from_backend_params_uses_the_backend_parameters', functions=['setigen.frame:Frame.from_backend_params', 'setigen.frame:params_from_backend'])(_C5.from_backend_params)
